@@ -33,6 +33,10 @@ def run(ctx, rep):
     if conv:
         r2_to_r5(prog, ev, rep, conv)
     r6(ctx, rep)
+    # reference(path) parses the path with the library's parser: a call limit refuses the (long) path of a deep node
+    from vflib.report import Shared
+    from rules import c06
+    c06.r4(ctx, Shared(rep, {"C06-R4": "C09-R8"}, lender="C06"))
 
 
 def r6(ctx, rep):
